@@ -40,6 +40,13 @@ CLAIMED = {
          'Trusted: as C03; scipy as_quat/from_matrix by contract (checked on the implementation); frame theorems carry the angle side condition (band measured).',
          'Lean 4 proofs on a hand-written model + differential correspondence over constructor forms and pose triples',
          'DESIGN.md section 5 C04'),
+ 'C12': ('Machine-checked theorems (Lean 4, reals) about an executable model of Screw/Wrench: frame change is Ad(inv(B)A) on twists and Ad(inv(A)B)^T on wrenches, records the new frame, '
+         'A->B->A = id, A->B->C = A->C, the pairing wrench.twist is frame-independent, p x f moment and zero moment at the application point, mixed-frame sums, and the vector-space laws; '
+         'all under the explicit side condition RelAngleOK (relative rotation 0 or >= 1e-6) that the proof forces - the excluded band is a known finding replayed on the implementation. '
+         'Model tied by a differential run over operand kinds x frame triples; the laws are also evaluated directly on the real objects.',
+         'Trusted: Lean kernel, Mathlib, harness generators; frames assumed coherent tm objects (C03); rounding outside.',
+         'Lean 4 proofs on a hand-written model (adjoint homomorphism from C01) + differential correspondence + on-object falsifier',
+         'DESIGN.md section 5 C12'),
 }
 NA_REASON = 'check not built yet in this round (work in progress; DESIGN.md section 8 gives the build order)'
 
